@@ -133,6 +133,9 @@ def setup():
     ct = os.path.join(VERIF, "harness", "Cargo.toml")
     s = open(ct).read().replace('path = "/repo"', 'path = "%s"' % REPO)
     open(ct, "w").write(s)
+    dg = os.path.join(VERIF, "lib", "derivegen.py")
+    s = open(dg).read().replace('path = "/repo"', 'path = "%s"' % REPO).replace('"/repo/Cargo.lock"', '"%s/Cargo.lock"' % REPO)
+    open(dg, "w").write(s)
 
 
 def suite_ok():
